@@ -300,3 +300,70 @@ let run_exec (dbl : bool) =
      done
    with End_of_file -> ());
   Printf.printf "SUMMARY exec_steps=%d diverged=%d exec_growths=%d\n" !steps !bad !grows
+
+(* the same for memory_pool<small_node_pool> against SmallPoolExec (chunked small list; no arrays) *)
+let run_exec_small () =
+  let st = ref None in
+  let steps = ref 0 and bad = ref 0 and lineno = ref 0 and grows = ref 0 in
+  let diverge msg line = incr bad; if !bad <= 12 then Printf.printf "DIVERGE line %d: %s :: %s\n" !lineno msg (if String.length line > 220 then String.sub line 0 220 else line) in
+  let show_evs evs = String.concat " " (List.map (function
+      | EUp (a, s) -> Printf.sprintf "U+(%d,%d)" (iz a) (iz s) | EUpFail -> "U+fail"
+      | EIns (n, m, s) -> Printf.sprintf "I(%d,%d,%d)" (iz n) (iz m) (iz s) | EResv (m, s) -> Printf.sprintf "R(%d,%d)" (iz m) (iz s)) evs) in
+  let answer_of events = List.fold_left (fun acc e -> match e with EUp (a, _) -> Some a | _ -> acc) None events in
+  let check_caps (s : spool) caps line =
+    match (try Some (List.assoc "cap" caps) with Not_found -> None) with
+    | Some c -> let m = iz (sm_capacity s.sp_g.g_l) * iz s.sp_g.g_l.sm_ns in if m <> c then diverge (Printf.sprintf "capacity_left: model %d" m) line
+    | None -> () in
+  (try
+     while true do
+       let line = input_line stdin in
+       incr lineno;
+       match String.split_on_char '|' line with
+       | [head; evs; caps] ->
+         let (lhs, rhs) = match String.index_opt head '=' with
+           | Some i -> (split_ws (String.sub head 0 i), split_ws (String.sub head (i + 1) (String.length head - i - 1)))
+           | None -> (split_ws head, []) in
+         let (events, _, _) = parse_events evs in
+         let caps = kv caps in
+         let finish (s', r, mev) =
+           incr steps;
+           if mev <> events then diverge (Printf.sprintf "model events [%s]" (show_evs mev)) line;
+           (match r, rhs with
+            | ObsOk x, "ok" :: p :: _ -> if iz x <> int_of_string p then diverge (Printf.sprintf "model address %d" (iz x)) line
+            | ObsNull, "null" :: _ | ObsThrow, "throw" :: _ | ObsTrue, "true" :: _ -> ()
+            | ObsOk x, _ -> diverge (Printf.sprintf "model serves the request at %d" (iz x)) line
+            | ObsNull, _ -> diverge "model refuses (null)" line
+            | ObsThrow, _ -> diverge "model throws" line
+            | _, _ -> diverge "unexpected model outcome" line);
+           List.iter (function EUp _ -> incr grows | _ -> ()) mev;
+           st := Some s'; check_caps s' caps line in
+         (match lhs, rhs with
+          | "pool" :: "small" :: ns :: bs :: src :: _, "ok" :: _ ->
+            let k = if src = "grow" then AGrow else AFixed in
+            let ((s, _), mev) = sp_construct k (zi (int_of_string ns)) (zi (int_of_string bs)) (answer_of events) in
+            incr steps;
+            if mev <> events then diverge (Printf.sprintf "constructor: model events [%s]" (show_evs mev)) line;
+            st := Some s; check_caps s caps line
+          | ("pool" | "coll") :: _, _ -> st := None
+          | ("ma" | "mfa") :: _, _ -> st := None
+          | (("an" | "tn") as o) :: _, res :: _ ->
+            (match !st with
+             | None -> ()
+             | Some s ->
+               let has_room = iz (sm_capacity s.sp_g.g_l) > 0 in
+               let refused_early = events = [] && (res = "throw" || (res = "null" && has_room)) in
+               if refused_early then check_caps s caps line
+               else if o = "an" then finish (let ((a, b), c) = sp_alloc_node s (answer_of events) in (a, b, c))
+               else finish (let ((a, b), c) = sp_try_alloc_node s in (a, b, c)))
+          | ("dn" | "tdn") :: _, "true" :: p :: _ ->
+            (match !st with
+             | None -> ()
+             | Some s ->
+               (match sp_dealloc_node s (zi (int_of_string p)) with
+                | Some ((a, b), c) -> finish (a, b, c)
+                | None -> diverge "model: the released node is not out" line; st := None))
+          | _ -> ())
+       | _ -> ()
+     done
+   with End_of_file -> ());
+  Printf.printf "SUMMARY exec_steps=%d diverged=%d exec_growths=%d\n" !steps !bad !grows
